@@ -79,6 +79,12 @@ def len_stages(s: Dict[str, Any]) -> int:
 def account(rep: Report, res, verdicts, nontrivial, rule: str, inputs) -> None:
     summ = [s for r in res for s in r["summary"]]
     ok = [s for s in summ if s.get("build") == "ok"]
+    if rep.prop == "C03":
+        # "After restructuring ... the blocks and regions form ...": an input of the domain on which restructuring does not complete
+        # has no structured result at all (the abort itself is C02's verdict; here it means the postcondition was not established)
+        for s_ in ok:
+            if s_.get("exc"):
+                rep.violation("NoStructuredResult", {"id": s_["id"], "stage": s_.get("reached", "")}, detail={"exc": s_["exc"]})
     for v in verdicts["viol"]:
         stage = STAGE_ORDER[v["sid"] - 1]
         for clause in v["bad"]:
